@@ -210,7 +210,20 @@ func run(args []string) error {
 			i := r.Intn(len(unspent))
 			in = unspent[i]
 			unspent = append(unspent[:i], unspent[i+1:]...)
-			t = w.Spend(coin.UxArray{in}, headTime, nk.SpendOpts{Fee: "min", NOut: 1 + r.Intn(3)})
+			ins := coin.UxArray{in}
+			// every second block: the transaction also spends an output of ANOTHER address
+			// (the per-address history index must list the transaction under every input's address)
+			if (b%2 == 1 || r.Chance(30)) && len(unspent) > 0 {
+				for j, ux := range unspent {
+					if ux.Body.Address != in.Body.Address {
+						ins = coin.UxArray{ux, in}
+						unspent = append(unspent[:j], unspent[j+1:]...)
+						hist.Add("life:multi-address-spend")
+						break
+					}
+				}
+			}
+			t = w.Spend(ins, headTime, nk.SpendOpts{Fee: "min", NOut: 1 + r.Intn(3)})
 			if _, _, err := pub.V.InjectForeignTransaction(t); err != nil {
 				return fmt.Errorf("publisher inject: %v", err)
 			}
